@@ -25,8 +25,9 @@ Counter p_optbool("probe.optional_of_bool_copied");
 Counter p_fault_make("probe.fault_inside_make_quaint");
 Counter p_fault_vec("probe.fault_inside_vector_growth");
 Counter p_fault_opt("probe.fault_inside_optional_copy");
-Counter p_types[4] = { Counter("payload.Small.created"), Counter("payload.Heapy.created"),
-                       Counter("payload.Large.created"), Counter("payload.Multi.created") };
+Counter p_types[5] = { Counter("payload.Small.created"), Counter("payload.Heapy.created"),
+                       Counter("payload.Large.created"), Counter("payload.Multi.created"), Counter("payload.SelfClearing.created") };
+Counter p_reenter("probe.reset_reentered_from_payload_destructor");
 
 constexpr uint32_t ALIVE = 0xA11CE5ED, DEAD = 0xDEADDEAD;
 
@@ -167,6 +168,37 @@ struct Multi : BaseA, BaseB
     }
 };
 
+// A payload that clears the pointer that owns it from its own destructor (an object removing
+// itself from a registry slot while the slot is being reset).  The pointer is already empty at
+// that instant - std::unique_ptr::reset() stores the null pointer before it runs the deleter - so
+// the inner call is a no-op; an owner that ran the deleter first would destroy the payload twice.
+// Armed only by reset() and `= nullptr` operations (a destructor of the owner itself is not re-entered).
+nitro::lang::quaint_ptr* g_reenter = nullptr;
+int g_reenter_how = 0;
+struct SelfClearing
+{
+    Head h;
+    explicit SelfClearing(int v)
+    {
+        throw_site();
+        born(&h, this, 5, v);
+    }
+    ~SelfClearing()
+    {
+        if (g_reenter && h.magic == ALIVE)
+        {
+            nitro::lang::quaint_ptr* q = g_reenter;
+            g_reenter = nullptr;
+            p_reenter++;
+            if (g_reenter_how == 1)
+                q->reset();
+            else
+                *q = nullptr;
+        }
+        died(&h, this, 5);
+    }
+};
+
 // payload of the optionals: copyable, instance-counted
 struct OptVal
 {
@@ -235,8 +267,8 @@ const std::vector<OpSchema>& own_schema()
         { "make", { "slot", "type", "val" } },
         { "move_construct", { "slot", "from" } },
         { "move_assign", { "slot", "from" } },
-        { "reset", { "slot" } },
-        { "assign_null", { "slot" } },
+        { "reset", { "slot", "reenter" } },
+        { "assign_null", { "slot", "reenter" } },
         { "observe", { "slot" } },
         { "destroy", { "slot" } },
         { "vec_push", { "slot" } },
@@ -265,8 +297,10 @@ constexpr int NSLOT = 4, NOPT = 4;
 
 quaint_ptr make_typed(int type, int val)
 {
-    switch (type % 4)
+    switch (type % 5)
     {
+    case 4:
+        return nitro::lang::make_quaint<SelfClearing>(val);
     case 3:
         return nitro::lang::make_quaint<Multi>(val);
     case 0:
@@ -474,7 +508,7 @@ struct Exec
         {
         case K_MAKE:
         {
-            int type = static_cast<int>(op.a[1] % 4), val = static_cast<int>(op.a[2] % 100);
+            int type = static_cast<int>(op.a[1] % 5), val = static_cast<int>(op.a[2] % 100);
             if (!slot[si])
             {
                 NoFault nf;
@@ -541,10 +575,13 @@ struct Exec
                 break;
             }
             arg = mslot[si] > 0 ? "engaged" : "empty";
+            g_reenter_how = static_cast<int>(op.a[1] % 3);
+            g_reenter = g_reenter_how ? slot[si] : nullptr;
             if (op.kind == K_RESET)
                 res = guarded([&] { slot[si]->reset(); });
             else
                 res = guarded([&] { *slot[si] = nullptr; });
+            g_reenter = nullptr;
             nslot[si] = 0;
             break;
         case K_OBSERVE:
@@ -617,7 +654,7 @@ struct Exec
         }
         case K_VEC_EMPLACE:
         {
-            int type = static_cast<int>(op.a[0] % 4), val = static_cast<int>(op.a[1] % 100);
+            int type = static_cast<int>(op.a[0] % 5), val = static_cast<int>(op.a[1] % 100);
             if (!vec)
             {
                 NoFault nf;
@@ -1044,7 +1081,7 @@ public:
     }
     std::vector<std::string> stub_components() const override
     {
-        return { "payload types Small/Heapy/Large/OptVal (instance-counting, creation-type tagged, constructors can throw)",
+        return { "payload types Small/Heapy/Large/Multi/SelfClearing/OptVal (instance-counting, creation-type tagged, constructors can throw; SelfClearing resets its owner from its destructor)",
                  "global operator new (k-th allocation in an operation fails)" };
     }
     Plan generate(Rng& rng, const Config&, int) override
